@@ -1068,6 +1068,11 @@ func (client *client) publishHandler(pub *packets.Publish) *codes.Error {
 		}
 		if exist {
 			dup = true
+			// a retransmission of a PUBLISH that is still awaiting PUBREL does not occupy
+			// another slot of the receive maximum (readLoop has taken one for it).
+			if client.version == packets.Version5 {
+				client.addServerQuota()
+			}
 		}
 	}
 
